@@ -77,6 +77,34 @@ func (e *Engine) Solve(dir string, timeoutS int, all bool, par chan struct{}) []
 			e.Extra = append(e.Extra, "(assert (forall ((a "+A+") (o (_ BitVec 64)) (n (_ BitVec 64)) (i (_ BitVec 64))) (! (=> (and (bvsle (_ bv0 64) i) (bvslt i n)) (= (select (gs.bytes (gs.of a o n)) i) (select a (bvadd o i)))) :pattern ((select (gs.bytes (gs.of a o n)) i)))))")
 		}
 	}
+	// fold frame (only where the contract asks for it with "foldframe"): a sum over a prefix does not depend on an
+	// element at or beyond the end of the prefix. A consequence of the fold's two defining equations by induction on
+	// the length; stated as an axiom (mathematical fact, listed in the assumptions) for folds over single-component
+	// elements.
+	if e.FoldFrame {
+		var names []string
+		for name := range e.C.Funcs {
+			if strings.HasPrefix(name, "fold.") {
+				names = append(names, name)
+			}
+		}
+		sort.Strings(names)
+		for _, name := range names {
+			d := e.C.Funcs[name]
+			if len(d.Args) < 3 || !strings.HasPrefix(string(d.Args[0]), "(Array (_ BitVec 64) ") || d.Args[1] != smt.BV(64) || d.Args[2] != smt.BV(64) {
+				continue
+			}
+			es := strings.TrimSuffix(strings.TrimPrefix(string(d.Args[0]), "(Array (_ BitVec 64) "), ")")
+			decl, use := "", ""
+			for k, xs := range d.Args[3:] {
+				decl += fmt.Sprintf(" (x%d %s)", k, xs)
+				use += fmt.Sprintf(" x%d", k)
+			}
+			e.Extra = append(e.Extra, fmt.Sprintf("(assert (forall ((a %s) (j (_ BitVec 64)) (v %s) (o (_ BitVec 64)) (n (_ BitVec 64))%s) (! (=> (and (bvsle (_ bv0 64) n) (bvsle (bvadd o n) j)) (= (|%s| (store a j v) o n%s) (|%s| a o n%s))) :pattern ((|%s| (store a j v) o n%s)))))",
+				d.Args[0], es, decl, name, use, name, use, name, use))
+			e.note("MATHEMATICAL FACT used as an axiom (not proved): a fold over a prefix of a slice does not depend on elements beyond the prefix (" + name + ")")
+		}
+	}
 	results := make([]OblResult, len(e.Obls))
 	var pending []int
 	for i, o := range e.Obls {
@@ -97,8 +125,19 @@ func (e *Engine) Solve(dir string, timeoutS int, all bool, par chan struct{}) []
 	}
 	runScript := func(name, script string) smt.Result {
 		par <- struct{}{}
+		r := smt.Solve(script, dir, name, timeoutS, all)
+		<-par
+		if r.Status == "unsat" || r.Status == "sat" || timeoutS < 30 {
+			return r
+		}
+		// not decided within the budget: on a loaded machine the slow obligations (CRC-24 equivalence, a few byte-level
+		// stream clauses) can miss it for no semantic reason; one retry with twice the budget, taken alone from the
+		// pool's point of view (the slot is re-acquired, so at most SolverSlots retries run at once)
+		par <- struct{}{}
 		defer func() { <-par }()
-		return smt.Solve(script, dir, name, timeoutS, all)
+		r2 := smt.Solve(script, dir, name+"__retry", 2*timeoutS, all)
+		r2.Seconds += r.Seconds
+		return r2
 	}
 	// conjunctions of many obligations get a short budget: if they are not decided quickly, splitting is cheaper
 	runBatch := func(name, script string) smt.Result {
